@@ -101,6 +101,17 @@ CHECKS = {
         "note": NOTE_COMMON,
         "technique": "Coq proof over an explicit heap model (simulation to the pure tracer) + history replay correspondence",
     },
+    "C16": {
+        "text": "Theorems about the visualizer model: the calls are the static trap zones (once, first, in table order) followed by exactly one "
+                "call per executed gate (zone and buffers) and one per played path, members of a parallel group in order, fills and measurements "
+                "silent; a group that still contains a group is refused. The property's weight is in the tie: the real PathVisualizer is run with a "
+                "recording RendererInterface (matplotlib replaced by name-only stub modules) on the C04 program corpus (device calls, parallel "
+                "groups, five gate kinds with distinct parameters, fills, measurements, loops, branches, subroutines; compiled with and without "
+                "spec) and its call list is compared with the model applied to the event log of the independent event executor; the dispatch "
+                "table statement -> renderer method/argument order is reflected each run.",
+        "note": NOTE_COMMON + " The matplotlib renderer itself is not exercised; auto groups / multi-region measure cannot be executed by any executor on this tree.",
+        "technique": "Coq homomorphism proofs + reflected dispatch table + correspondence of PathVisualizer with a recording renderer",
+    },
     "C17": {
         "text": "The property is finite (wrappers x kernel kinds). Theorems: the policy matrix is the documented vocabulary, and a passing "
                 "finite check over reflected tables implies acceptance = policy for every wrapper and kind. On every run the dialect groups and "
